@@ -867,3 +867,7 @@ def run(ctx):
     _run_main2(ctx)
     extras2(ctx)
     ctx.flush()
+
+
+# evidence: how the model is tied to the source on every run (as built, supersedes the value above)
+TIE = 'translator (padded length, bins, grid, scaling, inverse helper, dominant period -> Gen/FreqGrid; Props/C06Gen) + correspondence (Float twin of the O(N^2) DFT)'
